@@ -73,6 +73,9 @@ var gfSpecs = []gfSpec{
 	{Pkg: "./pkg/core/native", Recv: "NEO", Func: "setRegisterPrice", Lean: "neoSetRegisterPrice", Sink: "setIntWithKey"},
 	{Pkg: "./pkg/core/native", Recv: "NEO", Func: "SetGASPerBlock", Lean: "neoSetGASPerBlock", Sink: "n.putGASRecord"},
 	{Pkg: "./pkg/core/native", Recv: "Management", Func: "setMinimumDeploymentFee", Lean: "managementSetMinimumDeploymentFee", Sink: "ic.DAO.PutStorageItem"},
+	{Pkg: "./pkg/io", Recv: "BinReader", Func: "ReadVarUint", Lean: "readVarUint"},
+	{Pkg: "./pkg/compiler", Func: "toShortForm", Lean: "compilerToShortForm"},
+	{Pkg: "./pkg/compiler", Func: "negateJmp", Lean: "compilerNegateJmp"},
 	{Pkg: "github.com/nspcc-dev/dbft", Recv: "Context", Func: "F", Lean: "dbftF"},
 	{Pkg: "github.com/nspcc-dev/dbft", Recv: "Context", Func: "M", Lean: "dbftM"},
 	{Pkg: "github.com/nspcc-dev/dbft", Recv: "Context", Func: "GetPrimaryIndex", Lean: "dbftPrimaryIndex"},
@@ -936,7 +939,13 @@ func gf_funcTitle(fd *ast.FuncDecl) string {
 func genGoFuncs(repo string) (string, error) {
 	byPkg := map[string][]gfSpec{}
 	var order []string
+	seenLean := map[string]bool{}
 	for _, s := range gfSpecs {
+		// several files append to gfSpecs: a definition name is emitted once (first registration wins)
+		if seenLean[s.Lean] {
+			continue
+		}
+		seenLean[s.Lean] = true
 		if _, ok := byPkg[s.Pkg]; !ok {
 			order = append(order, s.Pkg)
 		}
